@@ -139,11 +139,15 @@ def h_load_defs(parser, buf, mac, args, delim, pos):
     if not ok:
         return utils.latex_error('could not read file ' + repr(file),
                                         pos, parser.latex, parser.parms)
+    # positions of text extracted from the file would refer to that file
+    extracted = parser.extracted
+    parser.extracted = []
     try:
         toks = parser.parser_work(latex)
     except RecursionError:
         utils.fatal('Problem while executing "' + mac.name + '{' + file
                     + '}".\n' + '*** Is the file included recursively?')
+    parser.extracted = extracted
     return utils.filter_set_toks(toks, pos, defs.LanguageToken)
 
 #   read definitions for a LaTeX package
